@@ -537,3 +537,6 @@ def run(facts, chk, tier, only=None):
     chk.guard('C04.mask', 'C04.mask:run', lambda: check_mask(facts, chk))
     chk.guard('C04.flags', 'C04.flags:run', lambda: check_flags(facts, chk))
     chk.guard('C04.len', 'C04.len:run', lambda: check_len(facts, chk))
+    from . import c01
+    # the reference k-mer list comes from the shared SplitKmer iterator: its end-of-record guards must be tight
+    chk.guard('C04.window', 'C04.window:run', lambda: c01.check_guards(facts, chk, 'C04.window'))
